@@ -2,16 +2,27 @@
 present/absent and lists of length 0/1/many, a compact random program generator, and CPython stdlib files."""
 import os
 
-# ------------------------------------------------------------------ known-finding probes (one shape each)
+# ------------------------------------------------------------------ regression corpus: shapes of the repaired findings
+# (repaired in /repo by 30597f1 — visitor descends into product types — and 64f487b — optimiser folds load-context
+#  tuples only); kept as ordinary corpus programs that run first.
 
-FINDING_PROBES = {
-    "visitor-skips-keyword": ["f(k=1)\n"],
-    "visitor-skips-arguments": ["lambda a=1: 0\n"],
-    "visitor-skips-withitem": ["with a as b:\n    pass\n"],
-    "visitor-skips-match_case": ["match x:\n    case 1:\n        pass\n"],
-    "visitor-skips-comprehension": ["[i for i in j]\n"],
-}
-OPT_PROBES = ["() = x\n", "for () in y:\n    pass\n", "[(), ((), ())] = x\n", "del ()\n"]
+REGRESSION = [
+    "f(k=1)\n",
+    "class A(m=M, **kw): pass\n",
+    "lambda a=1: 0\n",
+    "def f(a: int = 1, /, b: str = 's', *c: t1, d: t2 = 2, **e: t3) -> r:\n    pass\n",
+    "with a as b:\n    pass\n",
+    "match x:\n    case 1:\n        pass\n",
+    "match x:\n    case [a, *b] if g(a):\n        y = 1\n        z = 2\n",
+    "[i for i in j]\n",
+    "{k: v for k, v in j if c if d for m in n}\n",
+    "() = x\n",
+    "for () in y:\n    pass\n",
+    "[(), ((), ())] = x\n",
+    "del ()\n",
+    "with a as ():\n    pass\n",
+    "x = ()\ny = ((), (1, ()))\n() = y\n",
+]
 
 # ------------------------------------------------------------------ directed corpus
 
@@ -94,9 +105,8 @@ DIRECTED = [
 # ------------------------------------------------------------------ random generator
 
 class RandProg:
-    """compact recursive generator of (mostly) valid programs.  `clean`: no keyword arguments, no with, no match,
-    no comprehensions, no parameter annotations/defaults — the shapes whose children the default Visitor never
-    reaches (known findings), so that a clean stream has to come out spotless."""
+    """compact recursive generator of (mostly) valid programs.  `clean`: a plainer dialect (no keyword arguments, no
+    with, no match, no comprehensions, no parameter annotations/defaults) that gives more weight to the remaining kinds."""
 
     NAMES = ["a", "b", "c", "x", "y", "zz", "self", "é"]
 
@@ -121,10 +131,8 @@ class RandProg:
         if c == 1 and d > 0:
             return f"{self.atom(d - 1)}[{self.expr(d - 1)}]"
         if c == 2 and d > 0:
-            # never an all-constant store tuple: at least one name inside
-            items = [self.name()] + self.many(lambda: self.target(d - 1), 0, 2)
-            self.r.shuffle(items)
-            return "(" + ", ".join(items) + ",)"
+            items = self.many(lambda: self.target(d - 1), 0, 3)      # `()` as a target included
+            return "(" + ", ".join(items) + ("," if items else "") + ")"
         if c == 3 and d > 0:
             return "[" + ", ".join(self.many(lambda: self.target(d - 1), 1, 3)) + "]"
         return self.name()
@@ -441,11 +449,10 @@ def stdlib_sources(names):
 
 def program_groups(ctx):
     groups = []
-    probes = [s for v in FINDING_PROBES.values() for s in v]
-    groups.append({"name": "finding-probes", "kind": "directed", "sources": probes, "ops": ["visit", "fold"], "must_parse": True,
-                   "note": "one minimal program per listed Visitor finding (deterministic KNOWN-FINDING probes)"})
-    groups.append({"name": "finding-probes-opt", "kind": "directed", "sources": OPT_PROBES, "ops": ["opt", "fold"], "must_parse": True,
-                   "note": "store/del-context constant tuples (listed optimiser finding)"})
+    groups.append({"name": "regression", "kind": "corpus", "sources": REGRESSION, "ops": ["visit", "fold", "opt", "walk"],
+                   "must_parse": True,
+                   "note": "shapes of the repaired findings: children of keyword/arguments/withitem/match_case/comprehension, "
+                           "store- and del-context constant tuples"})
     groups.append({"name": "directed", "kind": "corpus", "sources": DIRECTED, "ops": ["fold", "visit", "walk", "ranges", "opt"],
                    "must_parse": True,
                    "note": "hand-written corpus: every node kind, optional fields present/absent, lists of length 0/1/many"})
@@ -461,13 +468,13 @@ def program_groups(ctx):
     g = RandProg(r, clean=True)
     groups.append({"name": "random-clean", "kind": "random", "sources": [g.program(r.choice([2, 3, 3, 4])) for _ in range(n_clean)],
                    "ops": ["visit", "fold"],
-                   "note": "random programs without keyword arguments / with / match / comprehensions / parameter annotations and "
-                           "defaults: the default Visitor has to reach every node"})
+                   "note": "random programs in a plain dialect (no keyword arguments / with / match / comprehensions / "
+                           "parameter annotations and defaults)"})
     r = ctx.rng("full")
     g = RandProg(r, clean=False)
     groups.append({"name": "random-full", "kind": "random", "sources": [g.program(r.choice([2, 3, 3, 4])) for _ in range(n_full)],
                    "ops": ["fold", "visit", "opt", "ranges"],
-                   "note": "random programs over the whole statement/expression/pattern grammar (no store-context constant tuples)"})
+                   "note": "random programs over the whole statement/expression/pattern grammar, store-context constant tuples included"})
     if not ctx.quick:
         r = ctx.rng("allranges")
         g = RandProg(r, clean=False)
